@@ -12,6 +12,7 @@ import (
 	"strings"
 	"sync"
 	"testing"
+	"time"
 
 	imap "github.com/emersion/go-imap/v2"
 	"github.com/emersion/go-imap/v2/imapserver"
@@ -209,14 +210,48 @@ func (w *world) mboxFlags(flags []imap.Flag) {
 // ---- poll: run a command on the session's connection and interpret the
 // untagged updates.
 
-func (w *world) poll(t fataler, s *session, allowExpunge bool) {
+// inject, if not nil, is run when the server performs its atWrite-th network
+// write while answering the poll, i.e. in the middle of SessionTracker.Poll
+// (between two updates): the mailbox changes while a poll is under way, as it
+// does when another session's command runs concurrently. The changes run in
+// their own goroutine (a tracker may legitimately make them wait for the poll)
+// and are joined before the model is consulted again.
+func (w *world) poll(t fataler, s *session, allowExpunge bool, atWrite int, inject func()) {
 	s.tagN++
 	tag := fmt.Sprintf("p%d", s.tagN)
 	cmd := "NOOP"
 	if !allowExpunge {
 		cmd = "FETCH 1 FLAGS" // non-UID FETCH: expunges must be withheld
 	}
+	pendingAtStart := len(s.pending)
+	var injected chan struct{}
+	if inject != nil {
+		writes := 0
+		s.raw.S.OnWrite = func([]byte) {
+			writes++
+			if writes == atWrite && injected == nil {
+				injected = make(chan struct{})
+				w.log("  (while %s.Poll is writing, before its network write #%d:)", s.name, atWrite)
+				go func() { defer close(injected); inject() }()
+				select {
+				case <-injected:
+				case <-time.After(2 * time.Second):
+				}
+			}
+		}
+	}
 	lines, st, err := s.raw.Cmd(tag, cmd)
+	if inject != nil {
+		s.raw.S.OnWrite = nil
+		if injected != nil {
+			select {
+			case <-injected:
+			case <-time.After(20 * time.Second):
+				w.fail(t, "%s: mailbox changes made while Poll was writing did not return 20 s after the poll ended", s.name)
+			}
+			ev.Class("mailbox-changed-during-poll")
+		}
+	}
 	if err != nil {
 		w.fail(t, "%s: Poll(allowExpunge=%v) via %q failed: %v (server log: %v)", s.name, allowExpunge, cmd, err, getEnv().Log.Lines())
 	}
@@ -309,15 +344,17 @@ func (w *world) poll(t fataler, s *session, allowExpunge bool) {
 		}
 		s.pending = s.pending[1:]
 	}
-	// completeness of the poll
+	// completeness of the poll: everything that was queued when the poll
+	// started (updates queued while it was writing may wait for the next one)
+	delivered := len(got)
 	if allowExpunge {
-		if len(s.pending) != 0 {
-			w.fail(t, "%s: after Poll(allowExpunge=true) %d queued updates were not emitted: %v", s.name, len(s.pending), s.pending)
+		if delivered < pendingAtStart {
+			w.fail(t, "%s: after Poll(allowExpunge=true) %d updates queued before the poll were not emitted: %v", s.name, pendingAtStart-delivered, s.pending)
 		}
-		if fmt.Sprint(s.view) != fmt.Sprint(w.truth) {
+		if len(s.pending) == 0 && fmt.Sprint(s.view) != fmt.Sprint(w.truth) {
 			w.fail(t, "%s: after a full poll the client's view %v differs from the mailbox %v", s.name, s.view, w.truth)
 		}
-	} else if len(s.pending) > 0 && s.pending[0].kind != "expunge" {
+	} else if delivered < pendingAtStart && len(s.pending) > 0 && s.pending[0].kind != "expunge" {
 		w.fail(t, "%s: Poll(allowExpunge=false) stopped before %v although it is not an expunge", s.name, s.pending[0])
 	}
 }
@@ -438,7 +475,37 @@ func runHistory(t *rapid.T, maxInc []int) {
 		"poll": func(t *rapid.T) {
 			s := rapid.SampledFrom(w.sessions).Draw(t, "which")
 			allow := rapid.Bool().Draw(t, "allowExpunge")
-			w.poll(t, s, allow)
+			var inject func()
+			atWrite := 0
+			if len(s.pending) >= 2 && rapid.IntRange(0, 2).Draw(t, "changeDuringPoll") == 0 {
+				// all choices are drawn here, in the test goroutine
+				atWrite = rapid.IntRange(1, 3).Draw(t, "atWrite")
+				type mut struct {
+					kind    string
+					pick, k int
+					flags   []imap.Flag
+				}
+				var muts []mut
+				for i, n := 0, rapid.IntRange(1, 3).Draw(t, "nchanges"); i < n; i++ {
+					muts = append(muts, mut{kind: rapid.SampledFrom([]string{"msgflags", "msgflags", "append", "expunge", "mboxflags"}).Draw(t, "change"),
+						pick: rapid.IntRange(0, 999).Draw(t, "pick"), k: rapid.SampledFrom(maxInc).Draw(t, "k"), flags: rapid.SampledFrom(flagSets).Draw(t, "flags")})
+				}
+				inject = func() {
+					for _, m := range muts {
+						switch {
+						case m.kind == "append" && len(w.truth) <= 40:
+							w.appendMsgs(m.k)
+						case m.kind == "expunge" && len(w.truth) > 0:
+							w.expunge(1 + m.pick%len(w.truth))
+						case m.kind == "msgflags" && len(w.truth) > 0:
+							w.msgFlags(1+m.pick%len(w.truth), 0, m.flags, nil)
+						case m.kind == "mboxflags":
+							w.mboxFlags(m.flags)
+						}
+					}
+				}
+			}
+			w.poll(t, s, allow, atWrite, inject)
 			polls++
 			ev.Class(fmt.Sprintf("poll:allowExpunge=%v", allow))
 		},
